@@ -52,6 +52,10 @@ def histories(run, maxlen):
         ea, eb = {"op": "exec", "r": a[0], "name": a[1]}, {"op": "exec", "r": b[0], "name": b[1]}
         for seq in itertools.permutations([ra, rb, ea, eb]):
             scenarios.append({"threads": [list(seq) + [ea, eb]], "mode": "free"})
+    # an infix operator re-registered at another precedence: later parses use the new precedence
+    for seq in itertools.product([eng.pin_reg(1, False), eng.pin_reg(3, True), eng.pin_reg(5, False), dict(eng.PIN_EXEC)], repeat=maxlen):
+        if seq[-1].get("op") == "exec" and any(c["op"] == "reg" for c in seq):
+            scenarios.append({"threads": [list(seq)], "mode": "free"})
     eng.run_many(run, "histories", scenarios, "C08", "C08/history")
 
 
